@@ -62,7 +62,7 @@ theorem idle_waiting (cfg : Cfg) (tbl : List Nat) (ops : List Op) (now : Nat) (t
     (hcar : f.maxCount > f.info.count ∨ gapElapsed f now = true)
     (hpub : (run (init cfg tbl) ops).cfg.mode = .full → f.published = true)
     (hst : ∀ st, f.info.startTime = some st → st ≤ now)
-    (hff : ∀ k g, getF (run (init cfg tbl) ops).objs k = some g → g.faults = []) :
+    (hff : QueueFaultFree (run (init cfg tbl) ops) f.prio) :
     ∀ q ∈ (run (init cfg tbl) ops).sessions, q.prio = f.prio → ∀ (j : Nat) (curj : Option Cur),
       q.slots[j]? = some curj →
       ∃ c g, curj = some c ∧ getF (run (init cfg tbl) ops).objs c.key = some g ∧ gateBlocked g now = true := by
@@ -76,7 +76,7 @@ theorem idle_waiting (cfg : Cfg) (tbl : List Nat) (ops : List Op) (now : Nat) (t
   obtain ⟨pre, post, hsess⟩ := List.append_of_mem hqs
   have hnav : ¬ Avail (run (init cfg tbl) ops) now curj := fun hav =>
     absurd hnone (read_wait cfg tbl ops pre post q j t' now ticks hsorted hsess curj hjs hav ht'
-      (fun u _ g hg _ hw' => stale_run cfg tbl ops g (getF_mem hg) hw') (fun u _ g hg _ => hff u g hg)).1
+      (fun u _ g hg _ hw' => stale_run cfg tbl ops g (getF_mem hg) hw') (fun u hu g hg hgp => hff u hu g hg (hgp.trans hp))).1
   cases curj with
   | none => exact absurd (Or.inl rfl) hnav
   | some c =>
